@@ -9,7 +9,9 @@ Self-test of tools/rs2lean.py (not part of any check; run by hand after editing 
   3. every construct outside the subset is rejected with file:line (never skipped);
   4. the same three kinds of test for tools/rs2lean_typed.py: sample_vec.rs (Vec / bool / `&mut self` calls inside expressions /
      recursion on fuel / `break` / short-circuit conditions) elaborated and evaluated; rename invariance on rlib/{mint,rand,dsu,sieve};
-     out-of-subset sources rejected with file:line.
+     out-of-subset sources rejected with file:line;
+  5. sample_arr.rs (a struct with a type parameter and a const generic, arrays `[usize; D]`, slices, `contains`, `iter().product()`,
+     `assert_eq!`, a `.rev()` loop, `Self::Output`, vector equality) elaborated and evaluated; rename invariance on rlib/tensor.
 """
 import os
 import re
@@ -208,9 +210,82 @@ def vec_selftest(T):
     return bad
 
 
+ARR_FNS = ["filled", "of", "volume", "weight", "zeros", "Index::index", "PartialEq::eq"]
+ARR_EVALS = [  # tools/rs2lean_selftest/sample_arr.rs; `c0` = the const generic D
+    ("(filled 0 2 #[2, 3] (7 : Int)).toOption", "some (#[2, 3], #[7, 7, 7, 7, 7, 7])"),
+    ("(match filled 0 2 #[2, 0] (7 : Int) with | .error .assert => 1 | _ => 0)", "1"),
+    ("(match filled 0 2 #[4294967296, 4294967296] (7 : Int) with | .error .overflow => 1 | _ => 0)", "1"),
+    ("(of 0 2 #[2, 2] (#[1, 2, 3, 4] : Array Int)).toOption", "some (#[2, 2], #[1, 2, 3, 4])"),
+    ("(match of 0 2 #[2, 2] (#[1, 2, 3] : Array Int) with | .error .assert => 1 | _ => 0)", "1"),
+    ("(volume 0 3 #[2, 3, 4] (#[] : Array Int)).toOption", "some 24"),
+    ("(weight 9 3 #[5, 6, 7] (#[] : Array Int)).toOption", "some 20"),           # 2*7 + 1*6 + 0*5
+    ("(match weight 3 3 #[5, 6, 7] (#[] : Array Int) with | .error .fuel => 1 | _ => 0)", "1"),
+    ("(match weight 9 3 #[5, 6] (#[] : Array Int) with | .error .index => 1 | _ => 0)", "1"),   # an array shorter than D: the checked index
+    ("(zeros 0 3 #[1, 1, 1] (#[] : Array Int)).toOption", "some #[0, 0, 0]"),
+    ("(index 0 1 #[2] (#[8, 9] : Array Int) 1).toOption", "some 9"),
+    ("(match index 0 1 #[2] (#[8, 9] : Array Int) 2 with | .error .index => 1 | _ => 0)", "1"),
+    ("(eq 0 2 #[2, 3] (#[1, 2] : Array Int) #[3, 2] #[1, 2]).toOption", "some false"),
+    ("(eq 0 2 #[2, 3] (#[1, 2] : Array Int) #[2, 3] #[1, 2]).toOption", "some true"),
+]
+GR = "pub struct G<T, const D: usize> {\n    ext: [usize; D],\n    cells: Vec<T>,\n}\n"
+ARR_REJECT = [  # (source after the struct, fragment expected in the error)
+    ("impl<T, const D: usize> G<T, D> {\n    pub fn f(&self) -> usize {\n        self.ext.iter().count()\n    }\n}\n", ":7: method `.iter()` on a `Vec`"),
+    ("impl<T, const D: usize> G<T, D> {\n    pub fn f(&self) -> usize {\n        self.ext.len::<usize>()\n    }\n}\n", ":7: turbofish"),
+    ("impl<T, const D: usize> G<T, D> {\n    pub fn f(&self) -> [usize; D] {\n        [1, 2]\n    }\n}\n", ":7: only the form `[x; N]`"),
+    ("impl<T: std::fmt::Debug, const D: usize> G<T, D> {\n    pub fn f(&self) -> usize {\n        0\n    }\n}\n", ":5: bound `Debug`"),
+    ("impl<T, const D: usize> G<T, D> {\n    pub fn f(&self, o: &Self) -> bool {\n        self.cells == o.cells\n    }\n}\n", ":7: `==` on vectors of a type parameter without"),
+    ("impl<T, const D: usize> G<T, D> {\n    pub fn f(&self) -> usize {\n        for x in self.ext.iter().rev() { }\n        0\n    }\n}\n", ":7: only `for i in a..b`"),
+]
+
+
+def arr_selftest(T):
+    bad = 0
+    with tempfile.TemporaryDirectory() as d:
+        out = os.path.join(d, "SampleArr.lean")
+        info, problems = T.run(os.path.join(HERE, "rs2lean_selftest", "sample_arr.rs"), out, "Rlib.TrTestArr", "sample_arr.rs", "selftest", "Grid", ARR_FNS)
+        text = open(out).read() + "open Rlib.TrTestArr\n" + "".join(f"#eval {e}\n" for e, _ in ARR_EVALS)
+        open(out, "w").write(text)
+        r = subprocess.run(["lake", "env", "lean", out], cwd=os.path.join(os.path.dirname(HERE), "lean"), capture_output=True, text=True)
+    got = [l for l in r.stdout.split("\n") if l.strip()]
+    want = [w for _, w in ARR_EVALS]
+    if problems or r.returncode != 0 or got != want:
+        bad += 1
+        print("FAIL typed sample_arr:", problems, r.returncode, [(g, w) for g, w in zip(got, want) if g != w], r.stdout[-600:], r.stderr[-300:])
+    else:
+        print(f"ok   typed: sample_arr.rs: {len(info['functions'])} functions, {len(info['loops'])} loops, {len(ARR_EVALS)} evaluations as expected")
+    ten = open("/repo/rlib/tensor/src/lib.rs").read()
+    tfns = ["from_vec", "from_slice", "new", "get_index", "dims", "dim", "Index::index", "IndexMut::index_mut", "PartialEq::eq"]
+    t0 = T.Translator(ten, "lib.rs").translate("Tensor", tfns)
+    a, b = ten.index("pub fn get_index"), ten.index("pub fn dims")
+    body = ten[a:b]
+    for old, new in (("result", "acc"), ("sz", "stride"), ("i", "k"), ("idx", "at")):
+        body = re.sub(rf"\b{old}\b", new, body)
+    t2 = ten[:a] + body.replace("let mut acc", "// offset\n        /* so /* far */ */\n        let   mut acc") + ten[b:]
+    t2 = re.sub(r"\bT\b", "Elem", re.sub(r"\bD\b", "RANK", t2)).replace("Self { dims, data }", "Self { data, dims }")
+    if t0 != T.Translator(t2, "lib.rs").translate("Tensor", tfns) or t2 == ten or "RANK" not in t2:
+        bad += 1
+        print("FAIL typed: renaming changes the generated text of tensor")
+    else:
+        print("ok   typed: tensor with variables, the type parameter and the const generic renamed, comments, struct-literal fields reordered: identical text")
+    n = 0
+    for body, frag in ARR_REJECT:
+        try:
+            T.Translator(GR + body, "t.rs").translate("G", ["f"])
+            bad += 1
+            print("FAIL typed accepted:", body.strip())
+        except T.TranslateError as e:
+            n += 1
+            if frag not in str(e):
+                bad += 1
+                print(f"FAIL typed: wrong message {e!s} (wanted {frag!r})")
+    print(f"{'ok  ' if n == len(ARR_REJECT) else 'FAIL'} typed: {n} out-of-subset array / type-parameter sources rejected with file:line")
+    return bad
+
+
 def typed_selftest():
     import rs2lean_typed as T
     bad = vec_selftest(T)
+    bad += arr_selftest(T)
     mint = open("/repo/rlib/mint/src/lib.rs").read()
     d0 = T.Translator(mint, "lib.rs").translate("Modular", MINT_FNS)
     m2 = mint
